@@ -11,6 +11,12 @@ CLAIMED = {
  "C02": ("the same crash-point enumeration as C01, verdict on the upper bound of the admissible set (nothing of a loser visible, commit-in-progress atomic)",
          "Same exhaustive exploration as C01 (all crash points from the first I/O event after the seed, including points inside statements, commit, abort, eviction and checkpoint); a recovered table must equal the committed model state before or after the commit in progress; differences are attributed to C02 when they are effects of a transaction that had not committed.",
          "as C01", "§4 C02"),
+ "C03": ("explicit-state search over statement sequences inside a victim transaction ended by explicit or conflict abort, differential snapshot before Begin / after Abort, on the real database, per index kind",
+         "For each of four index kinds and two seeds every statement sequence (<=2, thorough <=3) over insert / in-place, growing(relocating), shrinking, key-changing update / delete / same row twice inside the victim, ended by an explicit abort or by a lock conflict with a reading transaction, preceded by a committed statement and followed by committed inserts re-using the space, is run on the real engine; full scan plus every index point/range answer before Begin must equal the answers after Abort.",
+         "hash index without UPDATE and reached through the plan API, unique index without duplicate keys, indexed varchar <= 700 bytes (declared limitations)", "§4 C03"),
+ "C07": ("explicit-state search over committed/aborted transaction and restart histories; at every quiescent point plan-level index scans are compared with scan-path reads of the heap",
+         "Every history up to the depth bound of auto-commit statements, 1-2 statement transactions ended by commit or abort, clean and crash restarts, per index kind (skip list, unique skip list, B-tree, hash) and seed; whenever no transaction is open every key of the domain is looked up through the index (plan API, so the index is really used) and compared with the rows of the heap holding that key; range scans must return exactly the in-range rows, once, in key order; unbounded index scan = table.",
+         "as C03; crash restarts at quiescent points only", "§4 C07"),
  "C08": ("invariant monitor evaluated at every event of the recorded I/O trace of every explored history (the C01/C02 history space)",
          "For every history of the C01/C02 space (all pool sizes, checkpoint placements, eviction patterns they contain) the complete DiskManager call trace is checked event by event: a heap page write never carries a page LSN beyond the last complete record on stable storage, a writing transaction's commit returns only after its COMMIT record is durable, the log file always parses (with the repository's own record parser) into complete records with per-transaction increasing LSNs and intact prevLSN chains.",
          "heap pages = table heap chains of user tables; sequential histories here, concurrent executions are covered by the Engine C drivers", "§4 C08"),
@@ -23,6 +29,9 @@ CLAIMED = {
  "C13": ("explicit-state search over all new/fetch/write/unpin/flush/deallocate sequences on the real BufferPoolManager (pool sizes 1-3, in-memory and file disk manager, 2 users), merged on the pool's private state",
          "Every operation sequence up to the depth bound is executed on the real buffer pool; after every call the page table, frames, pin counts, resident bytes and on-disk bytes (read back through the disk manager) are compared with a map model page->latest bytes: fetch returns the latest bytes, pinned pages keep their frame, frames are never shared, new ids are never live ids.",
          "API contract restrictions listed in the evidence file (creator initialises and unpins dirty; deallocation only in the two call patterns the code base uses); single-threaded; depth bound", "§4 C13"),
+ "C14": ("explicit-state search over sequences of one statement per plan shape (all equal-cost join plans via the plan-choice hook) on the real database, pin vector of all frames compared before/after each statement",
+         "Every sequence (<=3, thorough <=4) of 16 statement shapes (seq scan, index point/range, selection, projection, hash/index join in every equal-cost variant, page-allocating insert, relocating and key-changing update, delete, refused statements, statements aborted by a lock conflict) on tables of 0 rows / 3 rows / 2 pages with pool 128 KB and 64 KB; after each statement no frame may be pinned that was not pinned before it.",
+         "DDL only in the seed; pin-count growth on pages that are pinned for the life of an index (skip-list start node) is reported as a statistic, not a violation (no additional frame is held)", "§4 C14"),
  "C15": ("explicit-state search over all operation sequences on the real TablePage, merged on raw page bytes, against a slot map model",
          "Every sequence of insert/update(grow, shrink, rollback flavour)/mark-delete/apply-delete/rollback-delete up to the depth bound, with row sizes from 1 byte to exactly-fills-the-page and one-too-big, is executed on the real slotted page; after every operation the raw 4096 bytes are compared with a slot->bytes model (row bytes, disjointness, bounds, free-space pointer, slot array, read path).",
          "recovery-phase transaction (no lock manager), logging off; operations restricted to the call patterns TableHeap/Abort/recovery use; depth and slot-count bounds in the evidence file", "§4 C15"),
